@@ -147,6 +147,8 @@ type c12run struct {
 	nRetired             int
 	kinds                map[string]int      // executed tasks by selection rule
 	wroteEmptyKey        bool                // the case wrote the empty key
+	reflushed            string              // a flush after a reopen wrote a table whose data was already in an older table (file name)
+	reopened             bool                // a reopen with the log kept happened (recovered tables are queued for flushing again)
 	emptyKeyTable        string              // a flushed table that holds the empty key and reads back without a single entry
 	cache                map[string]*c12file // every table file ever seen, by name (the running storage manager keeps reading files a compaction has deleted)
 	reopenedAfterCompact bool
@@ -293,6 +295,15 @@ func (r *c12run) afterFlush(pre []*c12file) {
 			}
 			en.stamp = st
 			g[i] = st
+			if r.reopened && st >= 0 && r.reflushed == "" {
+				// the same version is already stored in an older table: this is a recovered memtable
+				// (the log is replayed in full at every open) being flushed a second time
+				for _, of := range pre {
+					if oe := of.find(en.key); oe != nil && oe.stamp == st {
+						r.reflushed = f.name
+					}
+				}
+			}
 		}
 		r.ghost[f.name] = g
 	}
@@ -538,9 +549,14 @@ func (r *c12run) checkGet(k []byte, v []byte, err error, when string) {
 		if first.level > newest.level {
 			class = "deeper_level_outranks_newer_file_after_reopen"
 			msg += fmt.Sprintf(" (the newest version is in %s, but %s sorts after it by name and is consulted first)", newest.name, first.name)
+		} else if first.level == newest.level && first.ts > newest.ts && r.reflushed != "" && firstE.stamp < st {
+			// a table created LATER holds OLDER data: a recovered, already flushed memtable was flushed
+			// again after a reopen, and the log was retired before the (newer) active recovered table
+			// was flushed as well
+			class = "recovered_tables_reflushed_then_log_retired"
+			msg += fmt.Sprintf(" (the newest version is in %s; %s was written later, by flushing a memtable recovered from the log a second time, and holds the older version; the log that still held the newer one has been retired)", newest.name, first.name)
 		} else if first.level == newest.level {
-			class = "file_number_order_is_not_age_order_after_reopen"
-			msg += fmt.Sprintf(" (the newest version is in %s, but the older %s sorts after it by name and is consulted first)", newest.name, first.name)
+			msg += fmt.Sprintf(" (the newest version is in %s, but %s is consulted first)", newest.name, first.name)
 		}
 	}
 	r.fail(class, msg)
@@ -911,6 +927,9 @@ loop:
 			}
 			r.afterCompaction(pre, fmt.Sprintf("range compaction (op %d)", i))
 		case "reopen", "retire":
+			if l[0] == "reopen" {
+				r.reopened = true
+			}
 			if !r.reopen(l[0] == "retire", 3600) {
 				aborted = true
 				break loop
